@@ -20,6 +20,10 @@ def conc(tier):
         # clear losing the lock race on a tree bin against an untreeifying removal / another clear
         ConcScenario('tree/clear-vs-untreeify', hasher='const', capacity=40, prefill=tree, setup_removes=[0, 1, 2], threads=[[('clear',)], [('compute_none', 3)]], preemptions=2, yield_loads=th),
         ConcScenario('tree/clear-vs-clear', hasher='samebin', capacity=40, prefill=tree, threads=[[('clear',)], [('clear',)]], preemptions=2, yield_loads=th),
+        # the removed entry itself: it stays reachable through the tree until the bin has been swapped for the list
+        ConcScenario('tree/get-removed-vs-untreeify-by-remove', hasher='const', capacity=40, prefill=tree, setup_removes=[0, 1, 2], threads=[[('get', 3)], [('remove', 3)]], preemptions=2, yield_loads=True),
+        ConcScenario('tree/get-removed-vs-untreeify-by-compute', hasher='const', capacity=40, prefill=tree, setup_removes=[0, 1, 2], threads=[[('get', 3)], [('compute_none', 3)]], preemptions=2, yield_loads=th),
+        ConcScenario('tree/get-removed-vs-remove', hasher='const', capacity=40, prefill=tree, threads=[[('get', 5)], [('compute_none', 5)]], preemptions=2, yield_loads=th),
         ConcScenario('tree/get-vs-untreeify', hasher='const', capacity=40, prefill=tree, setup_removes=[0, 1, 2], threads=[[('get', 7)], [('remove', 3)]], preemptions=2, yield_loads=th),
     ]
     return S
